@@ -8,6 +8,7 @@ order and every schedule is data.  See DESIGN 4.2.
 """
 import collections
 import importlib
+import os
 import sys
 import types
 import _thread
@@ -119,6 +120,17 @@ class Sched(object):
 
     STEP_TIMEOUT = 20.0          # a thread BLOCKED for that long in something the scheduler does not control is "stuck"
     STARVED_LIMIT = 240.0        # ... while one that is merely not given the processor (overloaded machine) is waited for
+    SPIN_LIMIT = 10.0            # ... unless it has burnt that much processor time of its own without yielding (busy loop)
+
+    @staticmethod
+    def _cpu_seconds(native):
+        """Processor time (user + system) consumed so far by an OS thread of this process."""
+        try:
+            with open("/proc/self/task/%d/stat" % native) as f:
+                fields = f.read().rsplit(")", 1)[1].split()
+            return (int(fields[11]) + int(fields[12])) / float(os.sysconf("SC_CLK_TCK"))
+        except (OSError, IndexError, TypeError, ValueError):
+            return 0.0
 
     @staticmethod
     def _os_state(native):
@@ -140,10 +152,27 @@ class Sched(object):
         self.steps += 1
         t.sem.release()
         waited, asleep = 0.0, 0.0
+        cpu0 = self._cpu_seconds(getattr(t, "native", None))
         while not self.back.acquire(timeout=1.0):
             waited += 1.0
+            if self._cpu_seconds(getattr(t, "native", None)) - cpu0 >= self.SPIN_LIMIT:
+                t.state = "stuck"                # it has had plenty of processor time and still has not yielded: a busy loop
+                self.stuck.append(t.idx)
+                return
+            # blocked for good = the thread sleeps AND no other thread of this process is runnable (a runnable one may hold
+            # the interpreter lock the stepped thread is waiting for, and be starved of processor time itself)
             st = self._os_state(getattr(t, "native", None))
-            asleep = asleep + 1.0 if st in ("S", "D", "?") else 0.0
+            busy = False
+            if st in ("S", "D", "?"):
+                me = _rt.get_native_id() if hasattr(_rt, "get_native_id") else -1
+                try:
+                    for tid in os.listdir("/proc/self/task"):
+                        if int(tid) != me and self._os_state(int(tid)) == "R":
+                            busy = True
+                            break
+                except OSError:
+                    pass
+            asleep = asleep + 1.0 if (st in ("S", "D", "?") and not busy) else 0.0
             if asleep >= self.STEP_TIMEOUT or waited >= self.STARVED_LIMIT:
                 t.state = "stuck"
                 self.stuck.append(t.idx)
